@@ -167,9 +167,10 @@ def execute(sim, plan):
             for kind, rid, fid, detail in storesim.dag_problems(repo, mh, [r for r in mh.order if r in have]):
                 sit = situation(mh, rid, fid) if fid is not None and kind in ("last_changed", "text_parents", "text_missing") else "-"
                 sim.fail(kind, [kind, fmt, sit], f"{rid} [{','.join(mh.revs[rid]['tags'])}]: {detail}")
-        prob = storesim.check_clean(repo)
+        prob = storesim.check_clean(repo, unreferenced=True)
         if prob:
-            sim.fail("check", ["check", fmt, prob.split(" ")[0] + ":" + ("inconsistent" if "inconsistent" in prob else "other")], f"{ru}: {prob}")
+            what = "inconsistent-parents" if "inconsistent" in prob else "unreferenced-versions" if "unreferenced" in prob else "other"
+            sim.fail("check", ["check", fmt, what], f"{ru}: {prob}")
         sim.probe("revisions_judged", len(have))
     sim.nontrivial = interesting
     sim.state_seen((fmt, plan["layout"], tuple(sorted(tags)), len(done)))
